@@ -192,6 +192,48 @@ def folding_layer(ctx, ncases):
             ctx.record_violation('folded-constant-differs', '%s | %s' % (a[:200], b[:200]), payload=SqlCase([table], s2).payload())
 
 
+RAISING_CALLS = [
+    # (function call over columns a, b, c; the constants the columns hold): calls outside the domain of the function
+    ("splitcomp(a, b, c)", ('a,b', ',', 5)), ("maxwidth(a, c)", ('hello world', ',', 3)), ("date_add(a, c)", (datetime.date(2014, 1, 1), 0, 99999999)),
+    ("round(a, c)", (Decimal('1.5'), 0, 100)), ("grepn(b, a, c)", ('a', '(a)', 3)), ("a / c", (1, 0, 0)), ("a % c", (Decimal('1.5'), 0, 0)),
+    ("splitcomp(a, b, c)", ('a,b', ',', 1)), ("maxwidth(a, c)", ('hello world', ',', 8)), ("int(a)", ('x', 0, 0)), ("date(a)", ('2020-02-30', 0, 0)),
+    ("substr(a, c, c)", ('abc', 0, -7)), ("date_add(a, c)", (datetime.date(9999, 12, 31), 0, 1)), ("year(a) / (c - c)", (datetime.date(2014, 1, 1), 0, 3)),
+]
+
+
+def raising_fold_layer(ctx):
+    """a call outside the domain of its function behaves the same (the same value, NULL, or the same class of error) folded
+    from constants, bound from parameters, and evaluated per row from columns holding those constants"""
+    for call, vals in RAISING_CALLS:
+        pytypes = [type(v) for v in vals]
+        table = impl.HTable('t', [('a', pytypes[0]), ('b', pytypes[1]), ('c', pytypes[2])], [tuple(vals), tuple(vals)])
+        conn = impl.connection([table])
+        per_row = impl.run_select(conn, 'SELECT %s AS v FROM #t' % call)
+        lits = {n: bqlprint_const(v) for n, v in zip('abc', vals)}
+        import re as _re
+        folded_text = 'SELECT %s AS v FROM #t' % _re.sub(r'\b([abc])\b', lambda m: lits[m.group(1)], call)
+        folded = impl.run_select(conn, folded_text)
+        names = _re.findall(r'\b([abc])\b', call)
+        bound_text = 'SELECT %s AS v FROM #t' % _re.sub(r'\b([abc])\b', '%s', call)
+        bound = impl.run_select(conn, bound_text, tuple(vals['abc'.index(n)] for n in names))
+        where_rows = impl.run_select(conn, 'SELECT a FROM #t WHERE coalesce(str(%s), \'-\') = \'-\'' % call)
+        where_fold = impl.run_select(conn, folded_text.replace(' AS v FROM #t', '').replace('SELECT ', "SELECT a FROM #t WHERE coalesce(str(", 1) + "), '-') = '-'")
+        ctx.evaluations += 1
+        ctx.count('raising-fold')
+        ctx.nontrivial_hashes.add(hash(('raising-fold', call, repr(vals))))
+        if not (per_row == folded == bound) or where_rows != where_fold:
+            ctx.record_violation('folded-constant-differs', '%s with %r: per row %s | folded %s | bound %s | in WHERE %s / %s' % (
+                call, vals, per_row[:120], folded[:120], bound[:120], where_rows[:80], where_fold[:80]), payload={'call': call, 'values': vals})
+
+
+def bqlprint_const(v):
+    if isinstance(v, str):
+        return "'%s'" % v
+    if isinstance(v, datetime.date):
+        return v.isoformat()
+    return str(v)
+
+
 def _cols_to_consts(node, mapping):
     if isinstance(node, ast.Column):
         return ast.Constant(mapping[node.name])
@@ -500,6 +542,7 @@ def run(ctx):
     order_layer(ctx)
     cursor_layer(ctx)
     deferred_fetch_layer(ctx)
+    raising_fold_layer(ctx)
     ledger_history_layer(ctx, 8 if ctx.thorough() else 2)
     binding_layer(ctx, 1500 if ctx.thorough() else 250)
     folding_layer(ctx, 1500 if ctx.thorough() else 250)
